@@ -394,6 +394,31 @@ def check_auipc(report, facts, rule_adj, rule_sib):
                     if imm is not None and imm[0] == 'new' and imm[1] in ('Lo', 'Hi'):
                         nonlinear = True
     report.count('constructions with is_auipc_jump=True', flagged)
+    # mnemonics of the items built with the flag, and the compression predicates that can ever be applied to such an item
+    auipc_names = set()
+    for r in pa.rows:
+        for val, node in r['app_values']:
+            if val[0] == 'new':
+                f = ctor_fields(facts, val)
+                if f.get('is_auipc_jump') == C(True) and f.get('name') is not None and is_const(f['name']):
+                    auipc_names.add(f['name'][1])
+    relevant_factories = None
+    try:
+        from .comprel import CompRel
+        rel = CompRel(facts)
+        relevant_factories = set()
+        for ru in rel.rules:
+            if ru.name is None or ru.name in auipc_names:
+                relevant_factories.update(fname for _, fname, _ in rel.pa.lifted(ru.key, ru.preds))
+    except AnalysisError:
+        relevant_factories = None
+
+    def never_sees_flagged(fn_qual):
+        """A site inside a compression predicate that no rule applies to an is_auipc_jump mnemonic."""
+        parts = fn_qual.split('.')
+        if relevant_factories is None or len(parts) < 2 or parts[0] != 'transform_compressible':
+            return False
+        return not any(p_ in relevant_factories for p_ in parts[1:])
     # effective (position offset, post correction) for an is_auipc_jump item, per entry site
     entries = []          # (where, k, post, kind, node, fn, note)
     for s in sites:
@@ -402,6 +427,14 @@ def check_auipc(report, facts, rule_adj, rule_sib):
         flag = receiver_flag(s)
         base, k = position_offset(s)
         where = '{}:{}'.format(s.fn, s.node.lineno)
+        if never_sees_flagged(s.fn):
+            report.ok(rule_sib, where + ': predicate is never applied to an is_auipc_jump item')
+            continue
+        f_ = s.path.facts.get(s.recv)
+        if f_ and 'Arithmetic' in f_['isa']:
+            # a plain arithmetic expression does not depend on the evaluation point at all
+            report.ok(rule_sib, where + ': receiver is known to be Arithmetic (position-independent)')
+            continue
         if flag is True or flag is None:
             entries.append((where, k, s.post or 0, s.kind, s.node, s.fn, 'flag known true' if flag else 'flag not consulted'))
     for c in wcalls:
